@@ -2,6 +2,7 @@ package main
 
 import (
 	"go/ast"
+	"go/token"
 	"go/types"
 	"sort"
 	"strings"
@@ -362,4 +363,228 @@ func (lo *lockOrder) pathWitness(x, y string) string {
 		}
 	}
 	return ""
+}
+
+// ruleLockOrder states the package-local lock-order obligation for one package: every nested acquisition X → Y has no reverse
+// path Y ⇒ X. It returns the number of edges examined.
+func ruleLockOrder(c *Ctx, ix *PkgIndex, le *LockEngine, rule, label string) int {
+	lo := newLockOrder(ix, le)
+	lo.Build()
+	var xs []string
+	for x := range lo.Edges {
+		xs = append(xs, x)
+	}
+	sort.Strings(xs)
+	n := 0
+	pos := at(ix.M, ix.Pkg.Syntax[0].Pos())
+	for _, x := range xs {
+		var ys []string
+		for y := range lo.Edges[x] {
+			ys = append(ys, y)
+		}
+		sort.Strings(ys)
+		for _, y := range ys {
+			if x == y {
+				// the same class nested in itself is decided per object by ruleNoReacquire: at class level a wrapper that holds its
+				// own mutex while calling the wrapped value of the same type (bufferExporter → inner Exporter) is indistinguishable
+				// from a re-acquisition
+				continue
+			}
+			back := lo.pathWitness(y, x)
+			c.Check(back == "", rule, label+"|lock order|"+x+" → "+y+" has no reverse path", pos, lo.Edges[x][y],
+				"lock-order inversion (deadlock between two goroutines): "+lo.Edges[x][y]+"  AND  "+back)
+			n++
+		}
+	}
+	return n
+}
+
+// ownLocks returns, for a method g, the mutex paths (relative to g's receiver, e.g. ".mu", ".q.Mutex") that g acquires — itself or
+// through methods it calls on its own receiver (or on a field path of it) — on some path from its entry on which that mutex has
+// not been released first (a helper that is entered with the lock held and does Unlock … Lock is not an acquirer). The witness
+// names the acquisition.
+func (lo *lockOrder) ownLocks(g *FuncInfo, seen map[*FuncInfo]bool) map[string]string {
+	out := map[string]string{}
+	rv := g.Recv()
+	if rv == nil || g.Body() == nil || seen[g] {
+		return out
+	}
+	seen[g] = true
+	defer delete(seen, g)
+	info := lo.ix.Pkg.TypesInfo
+	root := varKey(rv)
+	fg := lo.ix.FG(g)
+	if fg == nil {
+		return out
+	}
+	reachNoUnlock := func(key string) map[*GNode]bool {
+		r, _ := fg.ReachFromEntry(func(x *GNode) bool {
+			blocked := false
+			switch x.N.(type) {
+			case *ast.DeferStmt, *ast.GoStmt:
+				return false
+			}
+			inspectNoLit(x.N, func(n ast.Node) bool {
+				if call, ok := n.(*ast.CallExpr); ok {
+					if k, op := lockOp(info, call); k == key && (op == "unlock" || op == "runlock") {
+						blocked = true
+					}
+				}
+				return true
+			})
+			return blocked
+		}, nil)
+		return r
+	}
+	inspectNoLit(g.Body(), func(n ast.Node) bool {
+		switch n.(type) {
+		case *ast.GoStmt:
+			return false
+		}
+		call, ok := n.(*ast.CallExpr)
+		if !ok {
+			return true
+		}
+		if k, op := lockOp(info, call); k != "" {
+			if op != "lock" && op != "rlock" {
+				return true
+			}
+			r, rest := keyRoot(k)
+			if r != root || rest == "" {
+				return true
+			}
+			if nd := fg.NodeOf(call); nd != nil && reachNoUnlock(k)[nd] {
+				if _, have := out[rest+"|"+op]; !have {
+					out[rest+"|"+op] = g.Name + " (" + lo.ix.M.posStr(call.Pos()) + ")"
+				}
+			}
+			return true
+		}
+		// a method called on the receiver (or on a field path of it)
+		sel, ok := unparen(call.Fun).(*ast.SelectorExpr)
+		if !ok {
+			return true
+		}
+		s := info.Selections[sel]
+		if s == nil || s.Kind() != types.MethodVal {
+			return true
+		}
+		m, _ := s.Obj().(*types.Func)
+		h := lo.ix.ByObj(m)
+		if h == nil || h.Recv() == nil {
+			return true
+		}
+		base := pathKey(info, sel.X)
+		if base == "" {
+			return true
+		}
+		base += implicitPath(s, len(s.Index())-1)
+		r, prefix := keyRoot(base)
+		if r != root && base != root {
+			return true
+		}
+		if base == root {
+			prefix = ""
+		}
+		nd := fg.NodeOf(call)
+		for restOp, w := range lo.ownLocks(h, seen) {
+			i := strings.LastIndex(restOp, "|")
+			rest, op := prefix+restOp[:i], restOp[i+1:]
+			if nd == nil || !reachNoUnlock(root + rest)[nd] {
+				continue
+			}
+			if _, have := out[rest+"|"+op]; !have {
+				out[rest+"|"+op] = g.Name + " (" + lo.ix.M.posStr(call.Pos()) + ") → " + w
+			}
+		}
+		return true
+	})
+	return out
+}
+
+// ruleNoReacquire: sync.Mutex and sync.RWMutex are not re-entrant. At every call of a package-local method on an object path whose
+// mutex is held at the call on every path (must-held), the callee does not acquire that same mutex of that same object (itself or
+// through further methods of the object). Holding it for reading and acquiring it again for reading is reported too: a writer
+// that arrives in between blocks the second RLock forever (sync documentation: recursive read locking is prohibited).
+// Returns the number of calls examined.
+func ruleNoReacquire(c *Ctx, ix *PkgIndex, le *LockEngine, rule, label string) int {
+	lo := newLockOrder(ix, le)
+	info := ix.Pkg.TypesInfo
+	n := 0
+	type ob struct {
+		bad string
+		pos token.Pos
+	}
+	obs := map[string]*ob{}
+	var keys []string
+	for _, f := range ix.All {
+		if f.Body() == nil {
+			continue
+		}
+		inspectNoLit(f.Body(), func(nd ast.Node) bool {
+			call, ok := nd.(*ast.CallExpr)
+			if !ok {
+				return true
+			}
+			sel, ok := unparen(call.Fun).(*ast.SelectorExpr)
+			if !ok {
+				return true
+			}
+			s := info.Selections[sel]
+			if s == nil || s.Kind() != types.MethodVal {
+				return true
+			}
+			m, _ := s.Obj().(*types.Func)
+			h := ix.ByObj(m)
+			if h == nil || h.Recv() == nil {
+				return true
+			}
+			base := pathKey(info, sel.X)
+			if base == "" {
+				return true
+			}
+			base += implicitPath(s, len(s.Index())-1)
+			held := le.HeldAt(f, call)
+			if len(held) == 0 {
+				return true
+			}
+			rel := false
+			for hk := range held {
+				if strings.HasPrefix(strings.TrimSuffix(hk, "#r"), base+".") {
+					rel = true
+				}
+			}
+			if !rel {
+				return true
+			}
+			n++
+			key := label + "|" + f.Name + "|call " + h.Name + " with a mutex of its receiver held"
+			o := obs[key]
+			if o == nil {
+				o = &ob{pos: call.Pos()}
+				obs[key] = o
+				keys = append(keys, key)
+			}
+			for restOp, w := range lo.ownLocks(h, map[*FuncInfo]bool{}) {
+				i := strings.LastIndex(restOp, "|")
+				rest, op := restOp[:i], restOp[i+1:]
+				k := base + rest
+				switch {
+				case held[k]:
+					o.bad = "the caller holds " + types.ExprString(sel.X) + rest + " and the callee acquires it again (" + op + "): " + w
+					o.pos = call.Pos()
+				case held[k+"#r"]:
+					o.bad = "the caller holds " + types.ExprString(sel.X) + rest + " for reading and the callee acquires it again (" + op + "): " + w
+					o.pos = call.Pos()
+				}
+			}
+			return true
+		})
+	}
+	sort.Strings(keys)
+	for _, k := range keys {
+		o := obs[k]
+		c.Check(o.bad == "", rule, k, at(ix.M, o.pos), "the callee does not acquire a mutex the caller holds on the same object", "self-deadlock (mutexes are not re-entrant): "+o.bad)
+	}
+	return n
 }
